@@ -19,17 +19,17 @@ import (
 )
 
 type c02 struct {
-	findings []harness.Finding
-	byRule   map[string]int
-	evals    int
-	accepted int
-	rejected int
+	findings            []harness.Finding
+	byRule              map[string]int
+	evals               int
+	accepted            int
+	rejected            int
 	refAcceptImplReject int
-	classes  map[string]bool
-	samples  []interface{}
-	rng      *rand.Rand
-	keys     *spi.Keys
-	ids      []string
+	classes             map[string]bool
+	samples             []interface{}
+	rng                 *rand.Rand
+	keys                *spi.Keys
+	ids                 []string
 }
 
 func (c *c02) bad(rule, d string, input map[string]interface{}) {
@@ -44,9 +44,9 @@ func (c *c02) bad(rule, d string, input map[string]interface{}) {
 }
 
 type c02world struct {
-	w     *leanhelix.WorkerLoop
-	comm  map[uint64][]interfaces.CommitteeMember
-	desc  string
+	w    *leanhelix.WorkerLoop
+	comm map[uint64][]interfaces.CommitteeMember
+	desc string
 }
 
 func (c *c02) world() *c02world {
@@ -413,7 +413,7 @@ func CheckC02(run *harness.Run) int {
 		"accepted":            c.accepted,
 		"rejected":            c.rejected,
 		"reference_accepts_but_implementation_rejects_(not_a_C02_matter)": c.refAcceptImplReject,
-		"violations_by_rule":  c.byRule,
+		"violations_by_rule": c.byRule,
 	}
 	run.WriteEvidence("exploration", cov, []string{"HMAC key manager as signature scheme", "reference predicate reads the proof with the generated reader (trusted) and counts weight in math/big"}, len(c.findings))
 	fmt.Printf("C02 %s: evaluations=%d accepted=%d rejected=%d classes=%d refAcceptImplReject=%d\n", run.Tier, c.evals, c.accepted, c.rejected, len(c.classes), c.refAcceptImplReject)
